@@ -9,6 +9,17 @@ from .exec_stmt import StmtMixin
 from .exec_call import CallMixin
 
 
+def flat_count(ct):
+    """(number of innermost elements, innermost element type) of a possibly nested array type"""
+    n = 1
+    while ct.kind == 'arr':
+        if ct.n is None:
+            return None, ct
+        n *= ct.n
+        ct = ct.to
+    return n, ct
+
+
 class PathEnd(Exception):
     """this path stops here (after an invariant check, an abort, or an infeasible branch)"""
 
@@ -228,11 +239,13 @@ class Engine(ExprMixin, StmtMixin, CallMixin):
             v = NULL if init == 'zero' else None
             return self.new_cell_region(name, ct, v, root, heap, stack)
         if ct.kind == 'arr':
-            if ct.to.kind != 'int':
+            # arrays of arrays (DataBlock L[65]) are one flat region of the innermost integer elements
+            n, base = flat_count(ct)
+            if base.kind != 'int' or n is None:
                 raise Unsupported('array of %r' % (ct.to,))
-            content = z3.K(BV64, bv(0, ct.to.bits)) if init == 'zero' else None
-            r = Region(name, 'arr', bits=ct.to.bits, length=bv(ct.n, 64), root=root, heap=heap, stack=stack)
-            self.st.mem[r.id] = content if content is not None else self.fresh(name, arr_sort(ct.to.bits))
+            content = z3.K(BV64, bv(0, base.bits)) if init == 'zero' else None
+            r = Region(name, 'arr', bits=base.bits, length=bv(n, 64), root=root, heap=heap, stack=stack)
+            self.st.mem[r.id] = content if content is not None else self.fresh(name, arr_sort(base.bits))
             return r
         if ct.kind == 'struct':
             return self.new_struct_region(name, ct, init, root, heap, stack)
